@@ -120,3 +120,236 @@ class RefBipartite:
 
 def _isint(x):
     return isinstance(x, int) and not isinstance(x, bool)
+
+
+# ---------------------------------------------------------------------------
+# three-valued reference readers for the in-house graph file formats
+
+import re
+
+_INT = re.compile(r"^-?[0-9]+$")
+
+
+class Valid:
+    def __init__(self, graph):
+        self.graph = graph
+
+
+class Invalid:
+    def __init__(self, why):
+        self.why = why
+
+
+class Gray:
+    def __init__(self, why):
+        self.why = why
+
+
+def _lines(text):
+    return text.replace("\r\n", "\n").replace("\r", "\n").split("\n")
+
+
+def _tok_int(tok):
+    """int | 'gray' (python accepts, format does not) | None (not a number)"""
+    if _INT.match(tok):
+        return int(tok)
+    try:
+        int(tok)
+        return "gray"
+    except ValueError:
+        return None
+
+
+def read_kthlist(text, gtype):
+    """gtype in simple | digraph | dag | bipartite."""
+    n = None
+    rows = []
+    gray = None
+    for raw in _lines(text):
+        if raw[:1] == "c":
+            continue
+        if raw.strip() == "":
+            continue
+        if raw.lstrip()[:1] == "c":
+            gray = gray or "comment line with leading blanks"
+            continue
+        if ":" not in raw:
+            if n is not None:
+                return Invalid("second size line")
+            toks = raw.split()
+            if len(toks) != 1:
+                return Invalid("ill-formed size line")
+            v = _tok_int(toks[0])
+            if v is None:
+                return Invalid("non-numeric size")
+            if v == "gray":
+                gray = gray or "exotic integer spelling"
+                v = int(toks[0])
+            if v < 0:
+                return Invalid("negative size")
+            n = v
+            continue
+        if n is None:
+            return Invalid("adjacency line before the size line")
+        parts = raw.split(":")
+        if len(parts) != 2:
+            return Invalid("more than one colon")
+        lt = parts[0].split()
+        if len(lt) != 1:
+            return Invalid("ill-formed vertex")
+        nums = []
+        for tok in lt + parts[1].split():
+            v = _tok_int(tok)
+            if v is None:
+                return Invalid("non-integer token")
+            if v == "gray":
+                gray = gray or "exotic integer spelling"
+                v = int(tok)
+            nums.append(v)
+        v, us = nums[0], nums[1:]
+        if not us or us[-1] != 0:
+            return Invalid("adjacency line does not end with 0")
+        us = us[:-1]
+        if not 1 <= v <= n or any(not 1 <= u <= n for u in us):
+            return Invalid("vertex out of range")
+        rows.append((v, us))
+    if n is None:
+        return Invalid("no size line")
+    for (a, _), (b, _) in zip(rows, rows[1:]):
+        if b <= a:
+            return Invalid("vertex lines not in increasing order")
+    if gtype == "bipartite":
+        L = max([v for v, _ in rows] or [0])
+        g = RefBipartite(L, n - L)
+        for v, us in rows:
+            for u in us:
+                if u <= L:
+                    return Invalid("edge inside the left side")
+                g.add(v, u - L)
+    elif gtype == "simple":
+        g = RefSimple(n)
+        for v, us in rows:
+            for u in us:
+                if u == v:
+                    return Invalid("self loop in a simple graph")
+                g.add(u, v)
+    else:
+        g = RefDirected(n)
+        for v, us in rows:
+            for u in us:
+                g.add(u, v)
+        if gtype == "dag" and not g.is_dag():
+            return Invalid("not topologically sorted")
+    if gray:
+        return Gray(gray)
+    return Valid(g)
+
+
+def read_dimacs_edge(text, gtype):
+    n = m = None
+    g = None
+    cnt = 0
+    gray = None
+    seen = set()
+    for raw in _lines(text):
+        line = raw.strip()
+        if line == "" or line[0] == "c":
+            continue
+        toks = line.split()
+        if line[0] == "p":
+            if n is not None:
+                return Invalid("second problem line")
+            if len(toks) != 4:
+                return Invalid("ill-formed problem line")
+            if toks[0] != "p":
+                gray = gray or "first token of problem line is not 'p'"
+            if toks[1] != "edge":
+                if toks[1] in ("col", "edges"):
+                    return Gray("problem line format is %r" % toks[1])
+                return Invalid("problem line format is not 'edge'")
+            vals = []
+            for t in toks[2:]:
+                v = _tok_int(t)
+                if v is None:
+                    return Invalid("non-numeric count")
+                if v == "gray":
+                    gray = gray or "exotic integer spelling"
+                    v = int(t)
+                vals.append(v)
+            n, m = vals
+            if n < 0:
+                return Invalid("negative vertex count")
+            g = RefSimple(n) if gtype == "simple" else RefDirected(n)
+            continue
+        if line[0] == "e":
+            if n is None:
+                return Invalid("edge before the problem line")
+            if len(toks) != 3:
+                return Invalid("ill-formed edge line")
+            if toks[0] != "e":
+                gray = gray or "first token of an edge line is not 'e'"
+            vals = []
+            for t in toks[1:]:
+                v = _tok_int(t)
+                if v is None:
+                    return Invalid("non-integer vertex")
+                if v == "gray":
+                    gray = gray or "exotic integer spelling"
+                    v = int(t)
+                vals.append(v)
+            u, v = vals
+            if not g.valid(u, v):
+                return Invalid("edge not allowed (range / self loop)")
+            key = (min(u, v), max(u, v)) if gtype == "simple" else (u, v)
+            if key in seen:
+                gray = gray or "duplicate edge line"
+            seen.add(key)
+            g.add(u, v)
+            cnt += 1
+            continue
+        gray = gray or "line of unknown type"
+    if n is None:
+        return Invalid("no problem line")
+    if cnt != m:
+        return Invalid("edge count mismatch")
+    if gtype == "dag" and not g.is_dag():
+        return Invalid("not topologically sorted")
+    if gray:
+        return Gray(gray)
+    return Valid(g)
+
+
+def read_matrix(text):
+    nums = []
+    gray = None
+    for raw in _lines(text):
+        toks = raw.split()
+        if not toks or toks[0][0] == "#":
+            continue
+        for t in toks:
+            v = _tok_int(t)
+            if v is None:
+                return Invalid("non numeric entry")
+            if v == "gray":
+                gray = gray or "exotic integer spelling"
+                v = int(t)
+            nums.append(v)
+    if len(nums) < 2:
+        return Invalid("missing dimensions")
+    L, R = nums[0], nums[1]
+    if L < 0 or R < 0:
+        return Invalid("negative dimension")
+    body = nums[2:]
+    if len(body) != L * R:
+        return Invalid("wrong number of entries")
+    g = RefBipartite(L, R)
+    for i in range(L):
+        for j in range(R):
+            b = body[i * R + j]
+            if b == 1:
+                g.add(i + 1, j + 1)
+            elif b != 0:
+                return Invalid("entry is not 0 or 1")
+    if gray:
+        return Gray(gray)
+    return Valid(g)
